@@ -64,9 +64,9 @@ def strata(corpus, ref):
     key = id(corpus)
     if key not in _STRATA:
         st = {}
+        hints = corpus.get('hints') or {}
         for op in corpus['pool']:
-            r = ref.get(O.op_key(op))
-            cls = 'err' if (r and r['obs'].startswith('err')) else 'ok'
+            cls = (hints.get(O.op_key(op)) or ['ok'])[0]
             st.setdefault('%s/%s/%s/%s' % (op['k'], op.get('d', ''), op.get('rd', op.get('cat', '')) if op['k'] != 'parse' else '', cls), []).append(op)
         _STRATA[key] = {k: v for k, v in st.items() if len(v) >= 8}
     return _STRATA[key]
@@ -75,7 +75,7 @@ def strata(corpus, ref):
 def _strategy(rng, est):
     k = _weighted(rng, [('bernoulli', 4), ('pct', 3), ('rr', 2), ('focus', 3)])
     if k == 'focus':
-        return {'kind': k, 'p': rng.choice([0.3, 0.5, 1.0]), 'pick': rng.randrange(1 << 20)}
+        return {'kind': k, 'p': rng.choice([0.3, 0.5, 1.0]), 'pick': rng.randrange(1 << 20), 'instr': rng.random() < 0.4}
     if k == 'bernoulli':
         return {'kind': k, 'p': rng.choice([0.001, 0.003, 0.01, 0.02, 0.05])}
     if k == 'pct':
@@ -83,8 +83,18 @@ def _strategy(rng, est):
     return {'kind': k, 'q': rng.choice([1, 7, 50, 400, 2000])}
 
 
+_HINTS = {}
+
+
+def set_hints(corpus):
+    _HINTS.clear()
+    _HINTS.update(corpus.get('hints') or {})
+
+
 def _ev(ref, op, gran):
-    n = ref.get(O.op_key(op), {}).get('ev', 3000)
+    # generation is a pure function of (seed, corpus): only the corpus' static hints are used here, never the
+    # reference table of the current check run (`ref` is kept in the signature and ignored)
+    n = (_HINTS.get(O.op_key(op)) or ['ok', 3000])[1]
     if gran == 'instr':
         n = int(n * INSTR_FACTOR)
     return max(n, 1)
